@@ -286,6 +286,6 @@ class MarginalRateTaxScale(RateTaxScaleLike):
                 previous_threshold = threshold
                 previous_rate = rate
 
-            average_tax_scale.add_bracket(float("Inf"), rate)
+            average_tax_scale.add_bracket(float("Inf"), previous_rate)
 
         return average_tax_scale
